@@ -224,3 +224,10 @@ for _n, _tiers in ((3, ('quick', 'thorough')), (4, ('thorough',))):
       out='angular sectors (C06.a/b/g); the ball-tree pre-selection; the real distance test (C06.i) and the real cross-validation test (distance_inter / code comparison); '
           'near-ties within the perturbation tolerance',
       assumptions=_MOV_ASSUME, stubs=_MOV_STUBS)
+
+# C06.h / C06.i now exist: extend the claim text (the sentence written before they existed is replaced, nothing else)
+CLAIMS['C06'] = CLAIMS['C06'].replace(
+    ' Not claimed: candidate filtering/distance (C06.h/i), the Euclidean metric through SpacePoint.',
+    ' Also decided: the candidate loop and glue of NeighMoving::getNeigh/_moving over symbolic filter tables (C06.h: exactly the admissible samples, sorted by distance, nmini/nmaxi, '
+    'single sector) and the anisotropic distance test BiTargetCheckDistance::isOK in 2-D (C06.i, real-arithmetic reading). Not claimed: the Euclidean metric through SpacePoint, '
+    'the ball-tree pre-selection inside _moving, the real cross-validation distance test.')
